@@ -53,7 +53,7 @@ class XmlContext:
         self.attribute_name_generator = attribute_name_generator
         self.class_type = class_types.get_type(class_type)
 
-        self.cache: dict[type, XmlMeta] = {}
+        self.cache: dict[Any, XmlMeta] = {}
         self.xsi_cache: dict[str, list[type]] = defaultdict(list)
         self.models_package = models_package
         self.sys_modules = 0
@@ -248,10 +248,25 @@ class XmlContext:
         Returns:
             The class binding metadata instance.
         """
-        if clazz not in self.cache:
+        key = self.cache_key(clazz, parent_ns)
+        if key not in self.cache:
             builder = self.get_builder(globalns)
-            self.cache[clazz] = builder.build(clazz, parent_ns)
-        return self.cache[clazz]
+            self.cache[key] = builder.build(clazz, parent_ns)
+        return self.cache[key]
+
+    @classmethod
+    def cache_key(cls, clazz: type, parent_ns: str | None) -> Any:
+        """Return the metadata cache key for the class and parent namespace.
+
+        The metadata of a class without a namespace of its own depends
+        on the namespace it inherits from the class that uses it.
+        """
+        if parent_ns is not None:
+            meta = clazz.__dict__.get("Meta")
+            if not hasattr(meta, "namespace"):
+                return clazz, parent_ns
+
+        return clazz
 
     def build_recursive(self, clazz: type, parent_ns: str | None = None) -> None:
         """Build the binding metadata for the given class and all of its dependencies.
@@ -262,7 +277,7 @@ class XmlContext:
             clazz: The class type
             parent_ns: The inherited parent namespace
         """
-        if clazz not in self.cache:
+        if self.cache_key(clazz, parent_ns) not in self.cache:
             meta = self.build(clazz, parent_ns)
             for var in meta.get_all_vars():
                 types = var.element_types if var.elements else var.types
